@@ -1154,6 +1154,17 @@ var deepKinds = []deepKind{
 	{name: "json-mixed", open: "[{\"blk\":", close_: "}]", core: "null", entries: []string{eJSON, eJSONExpr}},
 	{name: "json-string-template", pre: "{\"a\":\"", post: "\"}", open: "${[", close_: "]}", core: "1", entries: []string{eJSON, eJSONExpr}},
 	{name: "json-string-quotes", pre: "{\"a\":\"", post: "\"}", open: "${\\\"", close_: "\\\"}", core: "x", entries: []string{eJSON, eJSONExpr}},
+	// template directives in every template carrier (bare template: tmpl-if / tmpl-for above)
+	{name: "tmpl-if-min", open: "%{if a}", close_: "%{endif}", core: "", entries: []string{eTemplate, eLexTemplate}},
+	{name: "tmpl-if-else", open: "%{ if a }x%{ else }", close_: "%{ endif }", core: "y", entries: []string{eTemplate, eLexTemplate}},
+	{name: "tmpl-if-for", open: "%{ if true }%{ for x in y }", close_: "%{ endfor }%{ endif }", core: "x", entries: []string{eTemplate, eLexTemplate}},
+	{name: "tmpl-if-strip", open: "%{~ if true ~}", close_: "%{~ endif ~}", core: "x", entries: []string{eTemplate, eLexTemplate}},
+	{name: "quoted-if", pre: "\"", post: "\"", open: "%{ if true }", close_: "%{ endif }", core: "x"},
+	{name: "quoted-for", pre: "\"", post: "\"", open: "%{ for x in y }", close_: "%{ endfor }", core: "x"},
+	{name: "heredoc-if", pre: "<<E\n", post: "\nE\n", open: "%{ if true }", close_: "%{ endif }", core: "x"},
+	{name: "heredoc-for", pre: "<<-E\n  ", post: "\n  E\n", open: "%{ for x in y }", close_: "%{ endfor }", core: "x"},
+	{name: "json-string-if", pre: "{\"a\":\"", post: "\"}", open: "%{ if true }", close_: "%{ endif }", core: "x", entries: []string{eJSON, eJSONExpr}},
+	{name: "json-string-for", pre: "{\"a\":\"", post: "\"}", open: "%{ for x in y }", close_: "%{ endfor }", core: "x", entries: []string{eJSON, eJSONExpr}},
 }
 
 func deepKindByName(n string) *deepKind {
